@@ -31,18 +31,20 @@ TITLE = "Mesh generator / order elevation / combine_mesh / file readers / create
 LEVEL = "model_checking"
 RULE = ("E-BFS over histories of mesh operations, depth <= 3, complete for the stated alphabets, de-duplicated on "
         "canon = hash(element type, degree, coordinates rounded to 1e-12, connectivity, blocks, node sets, side sets). "
-        "Initial states: construct_structured_mesh(Nx,Ny) for all 2<=Nx,Ny<=4 (5 thorough), Delaunay(seed) of 6..9 "
-        "points, meshes with a hole; each with all 3^ne cyclic vertex rotations of the elements when ne<=4 and four "
-        "(thorough: six) rotation patterns otherwise, with harness-attached node sets / side sets / two blocks and, for "
-        "the unrotated mesh, also exactly as the library generates it; harness-written Exodus files (tri3/tri6 x 1..3 "
-        "blocks x named/unnamed/mixed x sets present/absent x node numbering x container variant) and JSON files. "
-        "Actions: elevate(p in 2..5, bubble, copyNodeSets, createNodeSetsFromSideSets) [32 variants; in the quick tier "
-        "the 8-variant sub-alphabet covering every (p, bubble) once on states of depth >= 1], merge(partner in the "
-        "merge alphabet, names disjoint / equal / absent), read(file), create_nodesets_from_sidesets; create_edges is "
-        "called on the vertex connectivity of every distinct reached mesh. A case = one distinct reached mesh (case id "
-        "= the history that first reached it). Non-trivial = reached by at least one library operation after "
-        "construction AND the mesh has at least one interior edge AND (degree >= 2 or a non-empty node/side set or a "
-        "non-identity vertex rotation) -- all measured on the reached mesh.")
+        "Initial states: construct_structured_mesh(Nx,Ny) for all 2<=Nx,Ny<=4 (thorough: also 2x5, 5x2, 5x5), "
+        "Delaunay(seed) of 6..9 points (thorough: a second seeded family), meshes with a hole; each with all 3^ne cyclic "
+        "vertex rotations of the elements when ne<=4 and four (thorough: six) rotation patterns otherwise, with "
+        "harness-attached node sets / side sets / two blocks and, unrotated, also exactly as the library generates it; "
+        "harness-written Exodus files (tri3/tri6 x 1..3 blocks x named/unnamed/mixed x sets present/absent x node "
+        "numbering x container variant) and JSON files. Actions: elevate(p in 2..5, bubble, copyNodeSets, "
+        "createNodeSetsFromSideSets): all 32 variants on initial meshes (quick tier: on exhaustive rotations other than "
+        "the four named patterns the 8-variant sub-alphabet that covers every (p, bubble) once and every flag pair "
+        "twice), the 8-variant sub-alphabet on states of depth >= 1; merge(partner in the merge alphabet, names "
+        "disjoint / equal / absent); read(file); create_nodesets_from_sidesets; create_edges is called on the vertex "
+        "connectivity of every distinct reached mesh. A case = one distinct reached mesh (case id = the history that "
+        "first reached it). Non-trivial = reached by at least one library operation after construction AND the mesh has "
+        "at least one interior edge AND (degree >= 2 or a non-empty node/side set or a non-identity vertex rotation) "
+        "-- all measured on the reached mesh.")
 ASSUMPTIONS = [
     "reference model mc/ref/mesh_ref.py: python sets, brute-force edge dictionary keyed by vertex pairs, O(n^2) node "
     "distance check; never imports optimism",
@@ -82,19 +84,15 @@ CONTAINERS = {
     "c3": ("NETCDF3_CLASSIC", 33, "map", "lower"),
 }
 BFILE = "x:ring6:mix:tri3:b2:mixed:both:natural:c0"
+SMOKE = ("A-s2x2-0", "B-0-1", "F-ring8-tri6", "J-ring8")
 
 
 # ----------------------------------------------------------------------------------------- enumeration
-def _nmax(tier):
-    return 4 if tier == "quick" else 5
-
-
 def _geoms(tier):
-    n = _nmax(tier)
-    g = ["s%dx%d" % (nx, ny) for nx in range(2, n + 1) for ny in range(2, n + 1)]
+    g = ["s%dx%d" % (nx, ny) for nx in range(2, 5) for ny in range(2, 5)]
     g += ["d6", "d7", "d8", "d9", "ring6", "ring8"]
     if tier != "quick":
-        g += ["e6", "e7", "e8", "e9", "grid4h"]
+        g += ["s2x5", "s5x2", "s5x5", "e6", "e7", "e8", "e9", "grid4h"]
     return g
 
 
@@ -151,14 +149,11 @@ def _a_inits(geom, tier, seed):
 
 
 def _bmembers(tier):
-    b = ["s2x2:r00:plain", "d6:mix:sets", BFILE]
-    if tier != "quick":
-        b.append("s3x2:r0120:sets")
-    return b
+    return ["s2x2:r00:plain", "d6:mix:sets", BFILE]
 
 
 def _fgeoms(tier):
-    return ["g3x3", "d7", "ring8"] + ([] if tier == "quick" else ["grid4h", "d9"])
+    return ["g3x3", "d7", "ring8"]
 
 
 def _file_specs(geom, etype, nblk, tier):
@@ -179,9 +174,10 @@ def _json_specs(geom, tier):
 
 
 def bounds(tier):
-    return {"depth": MAXD, "structured_sizes": "2..%d x 2..%d" % (_nmax(tier), _nmax(tier)),
+    return {"depth": MAXD, "structured_sizes": "all 2..4 x 2..4" + ("" if tier == "quick" else " + 2x5, 5x2, 5x5"),
             "geometries": _geoms(tier), "rotations": "all 3^ne for ne<=4, else %d patterns" % (4 if tier == "quick" else 6),
-            "elevate_variants": {"depth0": len(ELEV_FULL), "deeper": len(ELEV_SUB) if tier == "quick" else len(ELEV_FULL)},
+            "elevate_variants": {"depth0": ("%d (8 on exhaustive rotations other than id/all1/all2/mix)" % len(ELEV_FULL))
+                                 if tier == "quick" else len(ELEV_FULL), "deeper": len(ELEV_SUB)},
             "merge_alphabet": _bmembers(tier), "merge_modes": list(MODES),
             "file_geometries": _fgeoms(tier), "file_axes": {"etype": 2, "blocks": 3, "naming": 3, "presence": 4,
                                                             "numbering": 2, "container": len(CONTAINERS)}}
@@ -210,6 +206,9 @@ def groups(tier, seed):
     for geom in _fgeoms(tier):
         gs.append({"name": "F-%s-tri6" % geom, "fam": "F",
                    "specs": [s for nblk in (1, 2, 3) for s in _file_specs(geom, "tri6", nblk, tier)]})
+    for g in gs:      # `--group smoke` selects a three-group subset touching every routine (development aid)
+        if g["name"] in SMOKE:
+            g["name"] += "~smoke"
     return gs
 
 
@@ -460,6 +459,7 @@ def run_group(g, tier, seed, rec):
         ne = len(vtris)
         pat = _pattern(rot, ne, seed)
         rotated = any(pat)
+        named = pat in [_pattern(l, ne, seed) for l in ("id", "all1", "all2", "mix")]
         if libm is not None and not rotated and deco == "plain":
             mesh = libm                                       # exactly what the generator returned
             routine = "construct_structured_mesh"
@@ -473,9 +473,9 @@ def run_group(g, tier, seed, rec):
             routine = "construct_mesh_from_basic_data"
         rec.branch("init:" + ("structured" if geom[0] == "s" else "delaunay" if geom[0] in "de" else "hole"))
         rec.branch("rot:" + ("identity" if not rotated else "exhaustive" if rot[0] == "r" else "pattern"))
-        return {"mesh": mesh, "p": 1, "bubble": 0, "rk": routine, "rotated": rotated, "nmerge": 0}
+        return {"mesh": mesh, "p": 1, "bubble": 0, "rk": routine, "rotated": rotated, "nmerge": 0, "named": named}
 
-    def do_read(spec, cid):
+    def do_read(spec, cid, check=True):
         """write the file for `spec`, call the reader, check that nothing is lost. Returns state or None."""
         W, Wpm = _file_mesh(spec, seed)
         path = os.path.join(tmpd, "m.%s" % ("json" if W["kind"] == "json" else "exo"))
@@ -509,7 +509,7 @@ def run_group(g, tier, seed, rec):
             return None
         st = {"mesh": mesh, "p": 2 if W["etype"] == "tri6" else 1, "bubble": 0, "rk": routine,
               "rotated": True, "nmerge": 0}
-        if rec.want(cid):
+        if check and rec.want(cid):
             pm, bad = plain(mesh)
             if bad is not None:
                 rec.violation("%s|%s" % (routine, bad[0]), cid, dict(bad[1], spec=spec))
@@ -535,19 +535,21 @@ def run_group(g, tier, seed, rec):
     partner_cache = {}
 
     def partner_base(label):
-        """(coords, vtris, blocks, nodeSets, sideSets) of a merge-alphabet member as python values."""
+        """(plain mesh, library mesh) of a merge-alphabet member, or None when the member itself is not a
+        valid mesh (reported where it is an initial state; merging with it would only cascade)."""
         if label not in partner_cache:
+            partner_cache[label] = None
             if label.startswith("x:"):
-                st = do_read(label, "B/" + label)
-                if st is None:
-                    partner_cache[label] = None
-                    return None
-                m = st["mesh"]
+                st = do_read(label, "B/" + label, check=False)
+                m = None if st is None else st["mesh"]
             else:
                 m = build_constructed(label)["mesh"]
-            pm, bad = plain(m)
-            assert bad is None, bad
-            partner_cache[label] = (pm, m)
+            if m is not None:
+                pm, bad = plain(m)
+                if bad is None and not R.validity_problems(pm):
+                    partner_cache[label] = (pm, m)
+            if partner_cache[label] is None:
+                rec.branch("merge:partner-invalid-skipped")
         return partner_cache[label]
 
     def names_of(d):
@@ -620,7 +622,7 @@ def run_group(g, tier, seed, rec):
             if st["p"] == 1 and m.blocks is not None:
                 acts += [("M", lab, mode) for lab in B for mode in MODES]
         if st["p"] == 1:
-            alpha = ELEV_FULL if (tier != "quick" or depth == 0) else ELEV_SUB
+            alpha = ELEV_FULL if depth == 0 and (tier != "quick" or st.get("named", True)) else ELEV_SUB
             for (p, b, c, n) in alpha:
                 if n and m.sideSets is None:
                     rec.branch("elevate:createNodeSetsFromSideSets-skipped-no-sidesets")
@@ -656,9 +658,10 @@ def run_group(g, tier, seed, rec):
                                                   st["p"], st["bubble"])
             for k, v in maxima.items():
                 rec.track_max(k, v)
-            for sig, detail in probs:
+            for sig, detail in probs[:1]:      # first failing clause only: one defect -> one key per mode
                 sigs.append(sig)
-                rec.violation("%s|%s" % (rk, sig), cid, dict(detail, history=st["hist"], order=st["p"]))
+                rec.violation("%s|%s" % (rk, sig), cid, dict(detail, history=st["hist"], order=st["p"],
+                                                           further_failing_clauses=[q[0] for q in probs[1:]]))
             if int(mesh.parentElement.degree) != st["p"]:
                 sigs.append("degree-label")
                 rec.violation("%s|degree-label" % rk, cid, {"requested": st["p"], "label": int(mesh.parentElement.degree)})
@@ -721,11 +724,9 @@ def run_group(g, tier, seed, rec):
                     continue
                 if lab.startswith(("x:", "j:")):
                     if fam == "B":
-                        pb = partner_base(lab)
-                        if pb is None:
+                        st = do_read(lab, cid)       # checked here; counted as an initial state of the merge family
+                        if st is None:
                             continue
-                        st = {"mesh": pb[1], "p": 1, "bubble": 0, "rk": "read_exodus_mesh|tri3", "rotated": True,
-                              "nmerge": 0}
                         d0 = 0
                     else:
                         st = do_read(lab, cid)       # the read is the first transition (depth 1)
